@@ -12,29 +12,39 @@ import (
 // GetisOrdGStar's value is not stated: it multiplies by the natively rounded
 // constant sqrt((n-1)/n), so no exact identity holds in the real model.
 
+// verifC10locality: kind 0 symbolic non-negative dense matrix; kind 1 the
+// concrete rook contiguity of a 1 x n strip held in a BandDense (a
+// RowNonZeroDoer); kind 2 the same contiguity held in a Dense.
 func verifC10locality(n, kind int) (mat.Matrix, []float64) {
-	w := verifFloats("w", n*n)
-	for i := range w {
-		verifAssume(w[i] >= 0)
-	}
 	if kind == 0 {
+		w := verifFloats("w", n*n)
+		for i := range w {
+			verifAssume(w[i] >= 0)
+		}
 		return mat.NewDense(n, n, append([]float64{}, w...)), w
 	}
-	b := mat.NewBandDense(n, n, n-1, n-1, nil)
-	for i := 0; i < n; i++ {
-		for j := 0; j < n; j++ {
-			b.SetBand(i, j, w[i*n+j])
-		}
+	w := make([]float64, n*n)
+	b := mat.NewBandDense(n, n, 1, 1, nil)
+	for i := 0; i+1 < n; i++ {
+		w[i*n+i+1], w[(i+1)*n+i] = 1, 1
+		b.SetBand(i, i+1, 1)
+		b.SetBand(i+1, i, 1)
 	}
-	return b, w
+	if kind == 1 {
+		return b, w
+	}
+	return mat.NewDense(n, n, append([]float64{}, w...)), w
 }
 
 // VerifC10_MoransI: I * (sum_ij w_ij) * sum_i z_i^2 = n * sum_ij w_ij z_i z_j
 // with z = x - mean(x); z-score * sqrt(v) = I - E(I), E(I) = -1/(n-1), when
 // the variance is positive.
 func VerifC10_MoransI() {
-	n := verifChoose("n", 2, verifParam("morn", 3))
-	kind := verifChoose("locality", 0, 1)
+	n := verifChoose("n", 2, verifParam("morcn", 3))
+	kind := verifChoose("locality", 0, 2)
+	if kind == 0 && n > verifParam("morn", 2) {
+		return // symbolic locality: z3 decides n = 2 only
+	}
 	x := verifFloats("x", n)
 	x0 := append([]float64{}, x...)
 	loc, w := verifC10locality(n, kind)
